@@ -68,8 +68,10 @@ func checkC05(c *core.Ctx) {
 			}
 		}
 		start := keys[r.Intn(len(keys))].String()
-		dt, ok1 := p.DegreeTextPiece(model.TextOpts{UnicodeAcc: i%5 == 4})
-		st, ok2 := p.SyllableTextPiece(start, model.TextOpts{UnicodeAcc: i%3 == 2})
+		// every seventh piece states its settings twice in one pair of braces ({key=G,key=D}): the last one counts
+		dup := i%7 == 3
+		dt, ok1 := p.DegreeTextPiece(model.TextOpts{UnicodeAcc: i%5 == 4, DupSettings: dup})
+		st, ok2 := p.SyllableTextPiece(start, model.TextOpts{UnicodeAcc: i%3 == 2, DupSettings: dup})
 		if !ok1 || !ok2 {
 			c.Count("skipped_needs_double_accidental", 1)
 			return
@@ -379,6 +381,21 @@ func checkC05(c *core.Ctx) {
 					q = theory.Perfect
 				}
 				ch.Deg = theory.Interval{N: n, Q: q}
+				if r.Intn(3) == 0 {
+					// a slash bass that lies above the chord tones (a compound interval): around the top of the range
+					// it is the bass alone that leaves it
+					bn := 12 + r.Intn(12)
+					bq := theory.Major
+					if k := (bn - 1) % 7; k == 0 || k == 3 || k == 4 {
+						bq = theory.Perfect
+					}
+					ch.Bass = &theory.Interval{N: bn, Q: bq}
+					ch.Deg.N = 26 + r.Intn(10)
+					ch.Deg.Q = theory.Major
+					if k := (ch.Deg.N - 1) % 7; k == 0 || k == 3 || k == 4 {
+						ch.Deg.Q = theory.Perfect
+					}
+				}
 				hit = true
 			}
 		}
